@@ -296,6 +296,15 @@ func c10Gen(tier string, rng *rand.Rand, emit func(Case)) {
 			emit(Case{Line: fmt.Sprintf("pkg dec %02x - %s", t, hx(rndBytes(rng, []int{0, 1, 2, 5, 9, 40}[k]))), Kind: "arbitrary"})
 		}
 	}
+	// packet level: all header values incl. length < 8 (c14.go)
+	rdrawGen(tier, rng, emit)
+}
+
+func c10Impl(line string) string {
+	if strings.HasPrefix(line, "rdraw ") {
+		return rdrawImpl(line)
+	}
+	return pkgImpl(line)
 }
 
 // tokens LookupPackage knows but whose codec group (fields/formats/rows) is registered separately
@@ -343,7 +352,7 @@ func init() {
 		Assumptions: []string{"a fresh package object per attempt, as tryParsePackage does (LookupPackage inside the retry loop)"},
 	})
 	register(&Prop{
-		ID: "C10", Gen: c10Gen, Impl: pkgImpl, Oracle: c10Oracle,
+		ID: "C10", Gen: c10Gen, Impl: c10Impl, Oracle: c10Oracle,
 		FindingKey: func(line, out, clause string) string {
 			f := strings.Fields(line)
 			if len(f) > 2 {
@@ -352,7 +361,7 @@ func init() {
 			return clause
 		},
 		Nontrivial: pkgNontrivial, NoShrink: true, Timeout: 30 * time.Second,
-		Rule: "valid encodings of every package kind with every byte (sampled on long ones) replaced by 00/01/7f/80/fe/ff, random multi-byte mutations with truncation and trailing garbage, and arbitrary bytes after each of the 256 token values; real ReadFrom under recover vs the Lean decoder (outcome class and fields must agree). Non-trivial = well-formed case",
+		Rule: "valid encodings of every package kind with every byte (sampled on long ones) replaced by 00/01/7f/80/fe/ff, random multi-byte mutations with truncation and trailing garbage, and arbitrary bytes after each of the 256 token values; real ReadFrom under recover vs the Lean decoder (outcome class and fields must agree); packet level: the reader loop (Packet.ReadFrom per iteration) on streams of 1..3 packets with every announced length 0..16, every header type/status value, random header fields, truncations and read schedules vs the Lean reader model. Non-trivial = well-formed case",
 		Assumptions: []string{"allocation is bounded by the received bytes since PacketQueue.Bytes checks availability first (fix 31957a3); peak heap is not measured per case"},
 	})
 }
